@@ -939,6 +939,22 @@ var domainEpochKinds = map[string]string{
 	"DOMAIN_CONTRIBUTION_AND_PROOF":         "s2e(field.Slot)",
 }
 
+// slotKindAt: the kind of SlotToEpoch(<arg>) with <arg> read in the function fd (of the package with info): the callee of
+// the probe is resolved with calleeInfo, the package it was written in.
+func slotKindAt(info *types.Info, fd *ast.FuncDecl, calleeInfo *types.Info, probe *ast.CallExpr, pos token.Pos, depth int) string {
+	saved := epochKindCallee
+	epochKindCallee = func(c *ast.CallExpr) *types.Func {
+		if c == probe {
+			return calleeFunc(calleeInfo, &ast.CallExpr{Fun: probe.Fun})
+		}
+		return nil
+	}
+	defer func() { epochKindCallee = saved }()
+	return epochKind(info, fd, probe, pos, depth)
+}
+
+var epochKindCallee func(*ast.CallExpr) *types.Func
+
 // epochKind: what an epoch expression is, with locals read as their last definition before pos:
 //
 //	Epoch@<T>        the Epoch field of a value of named type T (VoluntaryExit), or of the field Target / Source of something
@@ -992,7 +1008,13 @@ func epochKind(info *types.Info, fd *ast.FuncDecl, e ast.Expr, pos token.Pos, de
 		if isConversion(info, x) && len(x.Args) == 1 {
 			return epochKind(info, fd, x.Args[0], pos, depth+1)
 		}
-		f := calleeFunc(info, x)
+		var f *types.Func
+		if epochKindCallee != nil {
+			f = epochKindCallee(x)
+		}
+		if f == nil {
+			f = calleeFunc(info, x)
+		}
 		if f == nil {
 			return "?call"
 		}
@@ -1009,7 +1031,24 @@ func epochKind(info *types.Info, fd *ast.FuncDecl, e ast.Expr, pos token.Pos, de
 				if !ok {
 					break
 				}
-				if paramIndex(fd, info, info.Uses[id]) >= 0 {
+				if k := paramIndex(fd, info, info.Uses[id]); k >= 0 {
+					// a parameter of an unexported helper is what its callers hand in: the kind they all agree on
+					if f, _ := info.Defs[fd.Name].(*types.Func); f != nil && fd.Recv == nil && !f.Exported() && !helperEscapes[f] && len(helperCallSites[f]) > 0 && depth < 3 {
+						kind := ""
+						for _, cs := range helperCallSites[f] {
+							if k >= len(cs.call.Args) || cs.call.Ellipsis.IsValid() {
+								return "s2e(param)"
+							}
+							// the argument, read in the caller as the slot of a SlotToEpoch call there
+							probe := &ast.CallExpr{Fun: x.Fun, Args: []ast.Expr{cs.call.Args[k]}}
+							ck := slotKindAt(cs.info, cs.fd, info, probe, cs.call.Pos(), depth+1)
+							if kind != "" && ck != kind {
+								return "?s2e(callers differ)"
+							}
+							kind = ck
+						}
+						return kind
+					}
 					return "s2e(param)"
 				}
 				rhs := resolve(id)
